@@ -150,8 +150,8 @@ func implementsPtr(named *types.Named, iface types.Type) bool {
 // edgeMust: literals that hold when control flows along the edge pred -> succ.
 func (c *Ctx) edgeMust(fn *ssa.Function, pred, succ *ssa.BasicBlock) []string {
 	out := c.mustLits(fn, pred)
-	if lit := c.PC(fn).edgeLit(pred, succ); lit != "" {
-		out = append(out, c.T(fn).Canon(lit))
+	if eds := c.PC(fn).edgeDNF(pred, succ); len(eds) == 1 {
+		out = append(out, eds[0]...)
 	}
 	sort.Strings(out)
 	return out
